@@ -31,6 +31,12 @@ CHECKS = {
    note="Oracle: no panic (keyed by the innermost repository frame), no hang (120 s watchdog), no stack overflow / worker death, bytes allocated per case <= 64 MiB + 256 x len(file) (runtime/metrics; also enforced while the case runs by a monitor that ends the worker). 34 defects repaired by fix: commits (known_findings.jsonl); one known finding: eager decoding of overlapping GSUB/GPOS lists (allocation amplification), needs a decoding budget in the generated readers. Time proportionality is only judged by the watchdog. Coverage-guided random mutation named by the property is sampling and not part of this check.",
    technique="exhaustive single-fault enumeration (field values, truncation points, directory swaps) over valid files with a totality and allocation-law oracle (E4)",
    design="1/C09", engine="E4 fault"),
+ "C17": dict(
+   level="model_checking",
+   text="Explicit-state exploration of thread interleavings at operation granularity on the real objects: 7 shared *font.Font (glyf+gvar, CFF2 variable, CFF, morx, colour bitmap, GSUB/GPOS, HVAR variable) x every pair of 2-operation thread programs and every triple of 1-operation programs over 9 colliding operations (NewFace+metrics, cmap, glyph queries, SetVariations+queries, HarfbuzzShaper.Shape, Buffer.Shape, FontMap+Segmenter.Split, ppem+GlyphData, Describe+segmenter) x every interleaving. After every transition the deep hash (unexported fields, full slice capacity, maps) of the shared font and of the package-level variables is compared with the one before; every result is compared with the solo run of the same thread program. In the solo runs all 289 package-level variables of the 12 repository packages (listed from source at build time by tools/c17gen through a build overlay) are hashed around every operation.",
+   note="The repository has one synchronisation primitive (a sync.Once in fontscan): any write to a shared root is therefore a data race by definition, which is what the monitor decides exhaustively over the explored operation sequences. Interleavings inside an operation are not explored; the free-running -race pass (64 goroutines, same operations, plus concurrent UseSystemFonts on a scratch directory for the sync.Once) is the complementary, sampling detector and is reported as such in the evidence. Needs tools/c17gen + -overlay (run.sh does it); if the -race build is unavailable the pass is skipped and counted.",
+   technique="explicit-state exploration of operation interleavings on the real objects with a write monitor over the shared roots and a differential (solo run) oracle (E3); free-running race detector pass as a non-exhaustive complement",
+   design="1/C17", engine="E3 sched"),
  "C01": dict(
    level="exploration",
    text="Every corpus face (752) x every string up to the tier's length over its font-derived alphabet and the script packs it covers x {6 directions, every sub-run with context, out-of-contract bounds, 8 script tags, sizes, features, language} through shaping.Shape and x {7 flag values x 3 cluster levels x 2 directions} through harfbuzz.Buffer.Shape; totality (panic, hang, memory attributed to the journalled case), output budget, reported range, cluster membership/monotonicity/count laws.",
